@@ -1219,11 +1219,13 @@ class Executor:
 
     # loops -----------------------------------------------------------------
     def loop_spec(self, frame, node):
-        frame.loop_no += 1
+        """loops are numbered statically: 1-based position among the loop
+        statements of the function in source order (nested defs excluded)"""
+        no = _loop_ordinals(frame.func.node).get(id(node), 0)
         c = self.registry.get(frame.func.qualname)
         if c is None:
-            return None, frame.loop_no
-        return c.loops.get(frame.loop_no), frame.loop_no
+            return None, no
+        return c.loops.get(no), no
 
     def s_While(self, node, frame):
         spec, no = self.loop_spec(frame, node)
@@ -1316,6 +1318,27 @@ class _Items:
 class Contract_:
     """base class so that exec can recognise contract callables"""
     inline = False
+
+
+_LOOP_ORD = {}
+
+
+def _loop_ordinals(fnode):
+    key = id(fnode)
+    if key not in _LOOP_ORD:
+        out = {}
+
+        def visit(n):
+            for c in ast.iter_child_nodes(n):
+                if isinstance(c, (ast.FunctionDef, ast.AsyncFunctionDef,
+                                  ast.Lambda, ast.ClassDef)):
+                    continue
+                if isinstance(c, (ast.For, ast.AsyncFor, ast.While)):
+                    out[id(c)] = len(out) + 1
+                visit(c)
+        visit(fnode)
+        _LOOP_ORD[key] = (fnode, out)
+    return _LOOP_ORD[key][1]
 
 
 def _owns_yield(fnode):
